@@ -28,7 +28,9 @@ from collections.abc import Sequence
 from collections.abc import Sized
 from contextlib import contextmanager
 from pathlib import Path
+from threading import Lock
 from typing import TYPE_CHECKING
+from typing import Any
 from typing import ClassVar
 
 from scipy.sparse import hstack as sparse_hstack
@@ -145,9 +147,19 @@ class DisciplineJacApprox:
             ValueError: If the Jacobian approximation method is unknown.
         """
         self.func = self.generator.get_function(input_names, output_names)
+        function = self.func.evaluate
+        if self.__parallel and self.__par_args["use_threading"]:
+            # The threads share the discipline: its executions cannot be concurrent.
+            lock = Lock()
+            evaluate = function
+
+            def function(*args: Any, **kwargs: Any) -> ndarray:
+                with lock:
+                    return evaluate(*args, **kwargs)
+
         self.approximator = GradientApproximatorFactory().create(
             self.approx_method,
-            self.func.evaluate,
+            function,
             step=self.step,
             parallel=self.__parallel,
             **self.__par_args,
